@@ -218,7 +218,23 @@ func BuildPool(t *vk.T, o PoolOptions) *Pool {
 
 // genInput builds pdfgen document i (a pure function of the seed and i); nil if pdfcpu does not validate it.
 func (p *Pool) genInput(t *vk.T, i int) *Input {
-	rng := t.RNGi("opwl-gen", i)
+	in, data := GenDoc(t.RNGi("opwl-gen", i), i)
+	if in == nil {
+		return nil
+	}
+	in.Path = filepath.Join(p.Dir, fmt.Sprintf("gen_%d.pdf", i))
+	if err := os.WriteFile(in.Path, data, 0o644); err != nil {
+		return nil
+	}
+	if Validate(in.Path, false) != nil {
+		os.Remove(in.Path)
+		return nil
+	}
+	return in
+}
+
+// GenDoc builds generated document i from its PRNG (vk: t.RNGi("opwl-gen", i)); exported for repro tools.
+func GenDoc(rng *rand.Rand, i int) (*Input, []byte) {
 	spec := pdfgen.RandomSpec(rng, 12)
 	if i%3 == 0 {
 		spec.Pages = 8 + rng.IntN(5)
@@ -249,7 +265,7 @@ func (p *Pool) genInput(t *vk.T, i int) *Input {
 		opts := spec.Write
 		enc, err := strictsec.NewEncrypter(alg, "", GenOwnerPW, -4, doc.ID[0], rngReader{rng})
 		if err != nil {
-			return nil
+			return nil, nil
 		}
 		opts.Encrypter = enc
 		min := truth.MinVersion
@@ -259,7 +275,7 @@ func (p *Pool) genInput(t *vk.T, i int) *Input {
 		opts.Version = pdfgen.FitVersion(opts, min)
 		out, err := pdfgen.Write(doc, opts)
 		if err != nil {
-			return nil
+			return nil, nil
 		}
 		data, in.Enc = out.Bytes, alg.String()
 		in.Tags["enc"] = true
@@ -284,15 +300,7 @@ func (p *Pool) genInput(t *vk.T, i int) *Input {
 	set("form", spec.Form)
 	set("outlines", spec.Outlines > 0)
 	set("files", spec.RandomFiles > 0)
-	in.Path = filepath.Join(p.Dir, fmt.Sprintf("gen_%d.pdf", i))
-	if err := os.WriteFile(in.Path, data, 0o644); err != nil {
-		return nil
-	}
-	if Validate(in.Path, false) != nil {
-		os.Remove(in.Path)
-		return nil
-	}
-	return in
+	return in, data
 }
 
 // TagCounts summarises the pool for the evidence file.
